@@ -233,13 +233,18 @@ Theorem C04_seeker_init_is_source :
   (forall p, saved_position_after_exit p = p).
 Proof. repeat split; reflexivity. Qed.
 
-(* SearchTask._run_search (Gen/SkelTree.v tk_run_search): directly after the
-   file-level constraint has been applied the lines are read - no test, no
-   return, no raise in between (whatever position the constraint left the
-   file at is where searching starts, for plain and gzip files alike) *)
+(* SearchTask._run_search (Gen/SkelTree.v tk_run_search): between applying
+   the file-level constraint and reading the lines nothing can return, raise
+   or call out - whatever sits there (building locals with loops or
+   comprehensions, logging) falls through to the read loop, so whatever
+   position the constraint left the file at is where searching starts, for
+   plain and gzip files alike *)
 Theorem C04_run_search_reads_right_after_constraint :
-  after_call "apply_global" (calls_only_list tk_run_search)
-  = Some (SEv (Call "enumerate_lines")).
+  match between_calls "apply_global" "enumerate_lines"
+                      (calls_only_list tk_run_search) with
+  | Some seg => all_fall_through seg
+  | None => false
+  end = true.
 Proof. vm_compute. reflexivity. Qed.
 
 (* ---- non-vacuity ----------------------------------------------------------
